@@ -1,7 +1,27 @@
 import PestModel.Model.Validator
-/-! # C06 — placeholder until the theorems land. -/
+import PestModel.Model.Ref
+import PestModel.Model.RefSpec
+import PestModel.Lemmas.Validator
+import PestModel.Lemmas.ValidatorSound
+/-!
+# C06 — validation guarantees termination and accepts well-formed grammars
+
+`PestModel.V.validateAst` is `pest_meta::validator::validate_ast` (tied to the real validator by the
+verdict correspondence). `PestModel.Ref` is the reference semantics.
+
+* Soundness as first stated ("an accepted grammar that does not use the stack terminates on every
+  input from every rule", `ValidatorSoundStmt`) is **false**: `validator_sound_refuted`
+  (`WHITESPACE = _{ a }  a = !{ EOI ~ "x" }` is accepted and `a` loops on the empty input through the
+  implicit whitespace skipping inside the non-atomic rule), `validator_sound_refuted_tag` (tags
+  without `grammar-extras` are not looked into).
+* `validator_sound_partial`: with "no tag without `grammar-extras`" and "no `!{…}` rule reachable from
+  `WHITESPACE`/`COMMENT`" every rule call of an accepted stack-free grammar terminates.
+* Completeness (`validator_complete`): strictly guarded grammars are accepted.
+-/
 namespace PestModel.C06
-open PestModel.V PestModel.G
+open PestModel.V PestModel.G PestModel.Ref
+open PestModel.PS (Atomicity CharSet)
+open PestModel.LineCol (Str)
 
 /-- the four grammars the old check accepted are rejected (the fix of `check_expr` is mirrored). -/
 theorem left_recursion_examples :
@@ -10,5 +30,419 @@ theorem left_recursion_examples :
     leftRecursion false [⟨"a", .normal, .repExact (.ident "a") 2⟩] = [.leftRecursive "a"] ∧
     leftRecursion false [⟨"a", .normal, .seq (.ident "b") (.str ['x'])⟩, ⟨"b", .normal, .opt (.ident "a")⟩] =
       [.leftRecursive "a", .leftRecursive "b"] := by decide
+
+/-- the stack built-ins. -/
+def stackBuiltins : List String := ["PUSH", "PEEK", "PEEK_ALL", "POP", "POP_ALL", "DROP"]
+
+/-- names with a fixed meaning that a grammar cannot redefine (`validate_pest_keywords` /
+`validate_rust_keywords` reject them before `validate_ast` runs). -/
+def reserved : List String := ["ANY", "SOI", "EOI"] ++ stackBuiltins
+
+/-- the expression does not use the stack. -/
+def StackFree : Expr → Bool
+  | .ident n => !stackBuiltins.contains n
+  | .peekSlice _ _ | .push _ | .pushLiteral _ => false
+  | .posPred e | .negPred e | .opt e | .rep e | .repOnce e | .nodeTag e _ => StackFree e
+  | .repExact e _ | .repMin e _ | .repMax e _ | .repMinMax e _ _ => StackFree e
+  | .seq a b | .choice a b => StackFree a && StackFree b
+  | _ => true
+
+/-- what the earlier validation stages (`validate_pairs`) guarantee: distinct rule names, none reserved. -/
+def WellNamed (rules : List Rule) : Prop :=
+  (rules.map (·.name)).Nodup ∧ ∀ r ∈ rules, r.name ∉ reserved
+
+/-- **Soundness, as originally stated** (a proposition, not a theorem): if the validator accepts a
+stack-free grammar, then parsing any input from any of its rules, in any mode, from any position,
+terminates (the reference semantics reaches a definite result: success, failure, or `stuck` on an
+undefined name). It is **false** (`validator_sound_refuted`); `validator_sound_partial` is the
+nearest true statement. -/
+def ValidatorSoundStmt : Prop :=
+  ∀ (extras : Bool) (rules : List Rule), WellNamed rules →
+    (∀ r ∈ rules, StackFree r.expr = true) → validateAst extras rules = [] →
+    ∀ (uni : String → Option CharSet) (input : Str) (name : String) (m : Atomicity) (la : Bool) (s : St),
+      ∃ fuel, call { rules, input, extras, uni } fuel m la name s ≠ .fuel
+
+/-! ### the counterexamples -/
+
+/-- `WHITESPACE = _{ a }   a = !{ EOI ~ "x" }`: a `!{…}` rule reachable from `WHITESPACE`. Inside
+`a` the sequence skips implicit whitespace, which calls `WHITESPACE`, which calls `a` … at the
+same position. The left-recursion check does not see the implicit call. -/
+def cexWs : List Rule :=
+  [⟨"WHITESPACE", .silent, .ident "a"⟩, ⟨"a", .nonAtomic, .seq (.ident "EOI") (.str ['x'])⟩]
+
+theorem cexWs_accepted : ∀ extras, validateAst extras cexWs = [] := by decide
+
+theorem cexWs_wellNamed : WellNamed cexWs := by
+  constructor
+  · decide
+  · decide
+
+theorem cexWs_stackFree : ∀ r ∈ cexWs, StackFree r.expr = true := by decide
+
+theorem cexWs_step (extras : Bool) (uni : String → Option CharSet) (k : Nat) (m : Atomicity) (la : Bool)
+    (h : call { rules := cexWs, input := [], extras, uni } k .atomic la "a" ⟨0, []⟩ = .fuel) :
+    call { rules := cexWs, input := [], extras, uni } (k + 6) m la "a" ⟨0, []⟩ = .fuel := by
+  simp only [cexWs] at h
+  simp [call, denote, skipWs, star, Ctx.rule?, Ctx.rule?.go, Ctx.has, cexWs, bodyMode, PestModel.LineCol.bLen, h]
+
+/-- on the empty input, calling `a` needs unbounded fuel. -/
+theorem cexWs_diverges (extras : Bool) (uni : String → Option CharSet) :
+    ∀ (k : Nat) (m : Atomicity) (la : Bool),
+      call { rules := cexWs, input := [], extras, uni } k m la "a" ⟨0, []⟩ = .fuel := by
+  intro k
+  induction k with
+  | zero => intro m la; rfl
+  | succ k ih =>
+    intro m la
+    have h6 := cexWs_step extras uni k m la (ih .atomic la)
+    have hle := (lev_mono { rules := cexWs, input := [], extras, uni } (show k + 1 ≤ k + 6 by omega)).ca m la "a" ⟨0, []⟩
+    rcases hle with hle | hle
+    · exact hle
+    · exact hle.trans h6
+
+/-- **the soundness statement is false**: the validator accepts a grammar whose rule `a` does not
+terminate on the empty input (a `!{…}` rule called from `WHITESPACE`). -/
+theorem validator_sound_refuted : ¬ ValidatorSoundStmt := by
+  intro H
+  obtain ⟨fuel, h⟩ := H false cexWs cexWs_wellNamed cexWs_stackFree (cexWs_accepted false)
+    (fun _ => none) [] "a" .nonAtomic false ⟨0, []⟩
+  exact h (cexWs_diverges false _ fuel _ _)
+
+/-- `a = { #t = a }` without `grammar-extras`: the validator does not look into tagged expressions
+(the meta-grammar cannot produce a tag without `grammar-extras`, so this needs a hand-built AST). -/
+def cexTag : List Rule := [⟨"a", .normal, .nodeTag (.ident "a") ['t']⟩]
+
+theorem cexTag_accepted : validateAst false cexTag = [] := by decide
+
+theorem cexTag_step (uni : String → Option CharSet) (input : Str) (k : Nat) (m : Atomicity) (la : Bool) (s : St)
+    (h : call { rules := cexTag, input, extras := false, uni } k m la "a" s = .fuel) :
+    call { rules := cexTag, input, extras := false, uni } (k + 3) m la "a" s = .fuel := by
+  simp only [cexTag] at h
+  simp [call, denote, Ctx.rule?, Ctx.rule?.go, cexTag, bodyMode, h]
+
+theorem cexTag_diverges (uni : String → Option CharSet) (input : Str) :
+    ∀ (k : Nat) (m : Atomicity) (la : Bool) (s : St),
+      call { rules := cexTag, input, extras := false, uni } k m la "a" s = .fuel := by
+  intro k
+  induction k with
+  | zero => intro m la s; rfl
+  | succ k ih =>
+    intro m la s
+    have h3 := cexTag_step uni input k m la s (ih m la s)
+    have hle := (lev_mono { rules := cexTag, input, extras := false, uni } (show k + 1 ≤ k + 3 by omega)).ca m la "a" s
+    rcases hle with hle | hle
+    · exact hle
+    · exact hle.trans h3
+
+/-- a second, independent refutation (tags without `grammar-extras`). -/
+theorem validator_sound_refuted_tag : ¬ ValidatorSoundStmt := by
+  intro H
+  obtain ⟨fuel, h⟩ := H false cexTag (by constructor <;> decide) (by decide) cexTag_accepted
+    (fun _ => none) [] "a" .nonAtomic false ⟨0, []⟩
+  exact h (cexTag_diverges _ _ fuel _ _ _)
+
+/-! ### the nearest true statement -/
+
+theorem stackFree_eq_SF : ∀ e : Expr, StackFree e = SF e := by
+  intro e
+  induction e <;> simp_all [StackFree, SF, stackBuiltins, stackNames]
+
+/-- **Soundness (partial).** The two extra hypotheses exclude exactly the two classes of
+counterexamples above:
+* `htag`: without `grammar-extras` the rules contain no tagged expression (`NoTag`);
+* `hna` (`NonAtomicOK`): no `!{…}` (non-atomic) rule other than `WHITESPACE`/`COMMENT` themselves is
+  reachable from `WHITESPACE`/`COMMENT` through rule references (`WsReach`). This holds in particular
+  if the grammar defines neither `WHITESPACE` nor `COMMENT` (`nonAtomicOK_of_no_ws`), or has no `!{…}`
+  rules (`nonAtomicOK_of_no_nonAtomic`).
+`WellNamed` is not needed. Then every rule call, in every mode, from every state, terminates. -/
+theorem validator_sound_partial (extras : Bool) (rules : List Rule)
+    (hsf : ∀ r ∈ rules, StackFree r.expr = true) (hv : validateAst extras rules = [])
+    (htag : extras = false → ∀ r ∈ rules, NoTag r.expr = true) (hna : NonAtomicOK rules)
+    (uni : String → Option CharSet) (input : Str) (name : String) (m : Atomicity) (la : Bool) (s : St) :
+    ∃ fuel, call { rules, input, extras, uni } fuel m la name s ≠ .fuel := by
+  let c : Ctx := { rules, input, extras, uni }
+  have hsf' : ∀ r ∈ c.rules, SF r.expr = true := fun r hr => by rw [← stackFree_eq_SF]; exact hsf r hr
+  have htag' : ∀ r ∈ c.rules, TagOK c.extras r.expr = true := by
+    intro r hr
+    cases hx : extras with
+    | true => simp [TagOK, c, hx]
+    | false => simp [TagOK, c, hx, htag hx r hr]
+  have hne := sound_core (c := c) hsf' htag' hv hna name s m la
+  obtain ⟨n, hn⟩ := exists_call c m la name s
+  exact ⟨n, by rw [hn]; exact hne⟩
+
+/-- the counterexample `cexWs` violates exactly `NonAtomicOK` (it has no tags), `cexTag` exactly `htag`. -/
+theorem cexWs_noTag : ∀ r ∈ cexWs, NoTag r.expr = true := by decide
+
+theorem cexWs_not_nonAtomicOK : ¬ NonAtomicOK cexWs := by
+  intro h
+  have h1 : WsReach cexWs "a" := .step .ws (n := "WHITESPACE") (body := .ident "a") (by decide) (by simp [allIdents])
+  have := h ⟨"a", .nonAtomic, .seq (.ident "EOI") (.str ['x'])⟩ (by simp [cexWs]) h1 rfl
+  revert this
+  decide
+
+theorem cexTag_nonAtomicOK : NonAtomicOK cexTag :=
+  nonAtomicOK_of_no_nonAtomic (by decide)
+
+/-- `e` begins by matching at least one character through a non-empty literal, a range or a
+single-character built-in (a name the grammar does not define and that is not `SOI`/`EOI`/a stack
+built-in). -/
+def Lead (rules : List Rule) : Expr → Bool
+  | .str s | .insens s => !s.isEmpty
+  | .range _ _ => true
+  | .ident n => (lookup rules n).isNone && n ≠ "SOI" && n ≠ "EOI" && !stackBuiltins.contains n
+  | .seq a _ => Lead rules a
+  | .choice a b => Lead rules a && Lead rules b
+  | .repOnce e | .nodeTag e _ => Lead rules e
+  | .repExact e n | .repMin e n => decide (0 < n) && Lead rules e
+  | .repMinMax e lo _ => decide (0 < lo) && Lead rules e
+  | _ => false
+
+/-- every reference to a grammar rule sits behind a leading character (so no path from a rule back
+to itself starts without consuming input), every repetition body and every non-final choice
+alternative is `Lead`. `leftmost = true` while nothing has been consumed yet on this path. -/
+def Guarded (rules : List Rule) : Bool → Expr → Bool
+  | leftmost, .ident n => !(leftmost && (lookup rules n).isSome)
+  | leftmost, .seq a b => Guarded rules leftmost a && Guarded rules (leftmost && !Lead rules a) b
+  | leftmost, .choice a b => Lead rules a && Guarded rules leftmost a && Guarded rules leftmost b
+  | leftmost, .rep e | leftmost, .repOnce e => Lead rules e && Guarded rules leftmost e
+  | leftmost, .repMin e _ => Lead rules e && Guarded rules leftmost e
+  | leftmost, .repExact e _ | leftmost, .repMax e _ | leftmost, .repMinMax e _ _ => Guarded rules leftmost e
+  | leftmost, .opt e | leftmost, .posPred e | leftmost, .negPred e | leftmost, .push e | leftmost, .nodeTag e _ =>
+    Guarded rules leftmost e
+  | _, _ => true
+
+/-- the whole grammar is strictly guarded; `WHITESPACE` and `COMMENT`, if defined, begin with a character. -/
+def StrictlyGuarded (rules : List Rule) : Prop :=
+  (∀ r ∈ rules, Guarded rules true r.expr = true) ∧
+  (∀ r ∈ rules, (r.name = "WHITESPACE" ∨ r.name = "COMMENT") → Lead rules r.expr = true)
+
+/-- tags (grammar-extras) are only put on expressions that are not silent rules or built-ins. -/
+def TagsOk (extras : Bool) (rules : List Rule) : Prop := validateTags extras rules = []
+
+/-! ### completeness: helper lemmas -/
+
+theorem lead_not_nonFailing (rules : List Rule) : ∀ (fuel : Nat) (e : Expr) (trace : List String),
+    Lead rules e = true → isNonFailing rules fuel e trace = false := by
+  intro fuel
+  induction fuel with
+  | zero => intros; rfl
+  | succ fuel ih =>
+    intro e trace h
+    cases e <;> simp only [Lead, Bool.and_eq_true, decide_eq_true_eq, Bool.false_eq_true] at h <;>
+      simp only [isNonFailing]
+    case str s => simpa using h
+    case insens s => simpa using h
+    case ident n =>
+      have hl : lookup rules n = none := by simpa using h.1.1.1
+      simp [hl]
+    case seq a b => simp [ih a trace h]
+    case choice a b => simp [ih a trace h.1, ih b trace h.2]
+    case repOnce e => exact ih e trace h
+    case nodeTag e t => exact ih e trace h
+    case repExact e n =>
+      have : (n == 0) = false := by simp; omega
+      simp [this, ih e trace h.2]
+    case repMin e n =>
+      have : (n == 0) = false := by simp; omega
+      simp [this, ih e trace h.2]
+    case repMinMax e lo hi =>
+      have : (lo == 0) = false := by simp; omega
+      simp [this, ih e trace h.2]
+
+theorem lead_not_nonProgressing (rules : List Rule) : ∀ (fuel : Nat) (e : Expr) (trace : List String),
+    Lead rules e = true → isNonProgressing rules fuel e trace = false := by
+  intro fuel
+  induction fuel with
+  | zero => intros; rfl
+  | succ fuel ih =>
+    intro e trace h
+    cases e <;> simp only [Lead, Bool.and_eq_true, decide_eq_true_eq, Bool.false_eq_true] at h <;>
+      simp only [isNonProgressing]
+    case str s => simpa using h
+    case insens s => simpa using h
+    case ident n =>
+      have hl : lookup rules n = none := by simpa using h.1.1.1
+      have h1 : n ≠ "SOI" := by simpa using h.1.1.2
+      have h2 : n ≠ "EOI" := by simpa using h.1.2
+      simp [hl, h1, h2]
+    case seq a b => simp [ih a trace h]
+    case choice a b => simp [ih a trace h.1, ih b trace h.2]
+    case repOnce e => exact ih e trace h
+    case nodeTag e t => exact ih e trace h
+    case repExact e n =>
+      have : (n == 0) = false := by simp; omega
+      simp [this, ih e trace h.2]
+    case repMin e n =>
+      have : (n == 0) = false := by simp; omega
+      simp [this, ih e trace h.2]
+    case repMinMax e lo hi =>
+      have : (lo == 0) = false := by simp; omega
+      simp [this, ih e trace h.2]
+
+theorem lead_choiceNode (rules : List Rule) (lhs : Expr) :
+    Lead rules lhs = true → Lead rules (match lhs with | .choice _ rhs => rhs | _ => lhs) = true := by
+  intro hl
+  split
+  · simp only [Lead, Bool.and_eq_true] at hl; exact hl.2
+  · exact hl
+
+/-- every sub-expression of a guarded expression is guarded (for some `leftmost` flag). -/
+theorem guarded_subExprs (extras : Bool) (rules : List Rule) : ∀ (e : Expr) (lm : Bool), Guarded rules lm e = true →
+    ∀ x ∈ subExprs extras e, ∃ lm', Guarded rules lm' x = true := by
+  intro e
+  induction e with
+  | seq a b iha ihb =>
+    intro lm h x hx
+    simp only [subExprs, List.mem_cons, List.mem_append] at hx
+    rcases hx with rfl | hx | hx
+    · exact ⟨lm, h⟩
+    · simp only [Guarded, Bool.and_eq_true] at h; exact iha _ h.1 x hx
+    · simp only [Guarded, Bool.and_eq_true] at h; exact ihb _ h.2 x hx
+  | choice a b iha ihb =>
+    intro lm h x hx
+    simp only [subExprs, List.mem_cons, List.mem_append] at hx
+    rcases hx with rfl | hx | hx
+    · exact ⟨lm, h⟩
+    · simp only [Guarded, Bool.and_eq_true] at h; exact iha _ h.1.2 x hx
+    · simp only [Guarded, Bool.and_eq_true] at h; exact ihb _ h.2 x hx
+  | rep a ih | repOnce a ih | repMin a n ih =>
+    intro lm h x hx
+    simp only [subExprs, List.mem_cons] at hx
+    rcases hx with rfl | hx
+    · exact ⟨lm, h⟩
+    · simp only [Guarded, Bool.and_eq_true] at h; exact ih _ h.2 x hx
+  | posPred a ih | negPred a ih | opt a ih | push a ih | repExact a n ih | repMax a n ih | repMinMax a lo hi ih =>
+    intro lm h x hx
+    simp only [subExprs, List.mem_cons] at hx
+    rcases hx with rfl | hx
+    · exact ⟨lm, h⟩
+    · simp only [Guarded] at h; exact ih _ h x hx
+  | nodeTag a t ih =>
+    intro lm h x hx
+    simp only [subExprs, List.mem_cons] at hx
+    rcases hx with rfl | hx
+    · exact ⟨lm, h⟩
+    · cases extras
+      · simp at hx
+      · simp only [Guarded] at h; exact ih _ h x (by simpa using hx)
+  | _ =>
+    intro lm h x hx
+    simp only [subExprs, List.mem_singleton] at hx
+    subst hx
+    exact ⟨lm, h⟩
+
+/-- the left-recursion check never fires on a guarded expression: it stops at the first leading
+character, and no grammar rule is referenced before it. -/
+theorem guarded_checkExpr (extras : Bool) (rules : List Rule) : ∀ (fuel : Nat) (e : Expr) (trace : List String),
+    (∀ n ∈ trace, (lookup rules n).isSome = true) → Guarded rules true e = true →
+    checkExpr extras rules fuel e trace = false := by
+  intro fuel
+  induction fuel with
+  | zero => intros; rfl
+  | succ fuel ih =>
+    intro e trace htr h
+    cases e <;> simp only [Guarded, Bool.and_eq_true, Bool.true_and] at h <;> simp only [checkExpr]
+    case ident n =>
+      have hl : lookup rules n = none := by simpa using h
+      have hnot : n ∉ trace := fun hm => by have := htr n hm; simp [hl] at this
+      have hh : trace.head? ≠ some n := fun hh => hnot (List.mem_of_mem_head? hh)
+      simp [hh, hl]
+    case seq a b =>
+      cases hL : Lead rules a with
+      | true =>
+        rw [lead_not_nonFailing rules _ a _ hL, lead_not_nonProgressing rules _ a _ hL]
+        simpa using ih a trace htr h.1
+      | false =>
+        have hb : Guarded rules true b = true := by simpa [hL] using h.2
+        simp [ih a trace htr h.1, ih b trace htr hb]
+    case choice a b => simp [ih a trace htr h.1.2, ih b trace htr h.2]
+    case rep a => exact ih a trace htr h.2
+    case repOnce a => exact ih a trace htr h.2
+    case repMin a n => exact ih a trace htr h.2
+    case opt a => exact ih a trace htr h
+    case posPred a => exact ih a trace htr h
+    case negPred a => exact ih a trace htr h
+    case push a => exact ih a trace htr h
+    case repExact a n => exact ih a trace htr h
+    case repMax a n => exact ih a trace htr h
+    case repMinMax a lo hi => exact ih a trace htr h
+    case nodeTag a t =>
+      cases extras
+      · simp
+      · simpa using ih a trace htr h
+
+/-- **Completeness.** A strictly guarded, well-named grammar is accepted. -/
+theorem validator_complete (extras : Bool) (rules : List Rule) (hwn : WellNamed rules)
+    (hg : StrictlyGuarded rules) (ht : TagsOk extras rules) : validateAst extras rules = [] := by
+  have _ := hwn
+  obtain ⟨hG, hW⟩ := hg
+  have hrep : validateRepetition extras rules = [] := by
+    unfold validateRepetition
+    rw [List.flatMap_eq_nil_iff]
+    intro r hr
+    rw [List.filterMap_eq_nil_iff]
+    intro x hx
+    obtain ⟨lm, hgx⟩ := guarded_subExprs extras rules r.expr true (hG r hr) x hx
+    split
+    all_goals try rfl
+    all_goals
+      simp only [Guarded, Bool.and_eq_true] at hgx
+      rw [lead_not_nonFailing rules _ _ _ hgx.1, lead_not_nonProgressing rules _ _ _ hgx.1]
+      rfl
+  have hch : validateChoices extras rules = [] := by
+    unfold validateChoices
+    rw [List.flatMap_eq_nil_iff]
+    intro r hr
+    rw [List.filterMap_eq_nil_iff]
+    intro x hx
+    obtain ⟨lm, hgx⟩ := guarded_subExprs extras rules r.expr true (hG r hr) x hx
+    split
+    · rename_i lhs rhs
+      simp only [Guarded, Bool.and_eq_true] at hgx
+      have hl := hgx.1.1
+      have key : ∀ node, Lead rules node = true →
+          (if isNonFailing rules (fuelFor rules node) node [] = true then some (Err.choiceUnreachable r.name) else none) = none := by
+        intro node hn
+        rw [lead_not_nonFailing rules _ _ _ hn]
+        rfl
+      refine key _ ?_
+      split
+      · simp only [Lead, Bool.and_eq_true] at hl; exact hl.2
+      · exact hl
+    · rfl
+  have hws : validateWsComment rules = [] := by
+    unfold validateWsComment
+    rw [List.filterMap_eq_nil_iff]
+    intro r hr
+    split
+    · rename_i hn
+      have hl := hW r hr hn
+      rw [lead_not_nonFailing rules _ _ _ hl, lead_not_nonProgressing rules _ _ _ hl]
+      rfl
+    · rfl
+  have hlr : leftRecursion extras rules = [] := by
+    unfold leftRecursion
+    rw [List.filterMap_eq_nil_iff]
+    intro r hr
+    rw [guarded_checkExpr extras rules _ r.expr [r.name] ?_ (hG r hr)]
+    · rfl
+    · intro n hn
+      simp only [List.mem_singleton] at hn
+      subst hn
+      exact lookup_isSome_of_mem hr
+  unfold validateAst
+  rw [hrep, hch, hws, hlr, ht]
+  rfl
+
+/-- non-vacuity: a recursive, strictly guarded grammar with implicit whitespace, accepted, stack-free. -/
+def exRules : List Rule :=
+  [⟨"WHITESPACE", .silent, .str [' ']⟩,
+   ⟨"list", .normal, .seq (.str ['[']) (.seq (.opt (.seq (.ident "item") (.rep (.seq (.str [',']) (.ident "item"))))) (.str [']']))⟩,
+   ⟨"item", .normal, .choice (.repOnce (.ident "ASCII_DIGIT")) (.seq (.str ['(']) (.seq (.ident "list") (.str [')'])))⟩]
+
+example : validateAst false exRules = [] ∧ (∀ r ∈ exRules, StackFree r.expr = true) ∧
+    (∀ r ∈ exRules, Guarded exRules true r.expr = true) := by
+  decide
 
 end PestModel.C06
